@@ -11,6 +11,7 @@
 (* event: [cid, ev, cap, asked, n, err, data, blen, fc, fb, fr]                     *)
 (*   ev   "new" | "write" | "read" | "block" | "close" | "break" | "release"        *)
 (*        | "stuck" (the reader did not return from Read; harness watchdog)         *)
+(*        | "query" (Err() returned err; the Done() channel is closed: n = 1)       *)
 (*        | "panic"                                                                 *)
 (*   data write: the payload offered (asked bytes); read: the bytes delivered       *)
 (*   err  class of the error returned / given                                       *)
@@ -60,8 +61,10 @@ Step == \/ Ev.ev = "write" /\ PWrite(Ev.asked, Ev.n, Ev.err, Ev.data)
         \/ Ev.ev = "break" /\ PBreak(Ev.err)
         \/ Ev.ev = "release" /\ PRelease
         \/ Ev.ev = "stuck" /\ PStuck
+        \/ Ev.ev = "query" /\ PQuery(Ev.err, Ev.n = 1)
 
-TStep == /\ Ev.ev \in {"write", "read", "block", "close", "break", "release", "stuck"} /\ ~dead
+TStep == /\ Ev.ev \in {"write", "read", "block", "close", "break", "release", "stuck", "query"}
+         /\ ~dead
          /\ Step /\ Judge
 
 TPanic == /\ Ev.ev = "panic" /\ ~dead
